@@ -32,7 +32,7 @@ pub fn empty_sheet(name: &str, sheet_id: u32) -> Worksheet {
 }
 
 /// stored (Excel-unit) width: finite, 0 ..= MAX_W
-pub fn any_width() -> f64 { let w = any_f64(); assume(w >= 0.0 && w <= MAX_W); w }
+pub fn any_width() -> f64 { let w = any_f64(); assume((w >= 0.0) & (w <= MAX_W)); w }
 
 /// up to `max` column descriptors: sorted, disjoint, inside the grid (the representation invariant)
 pub fn any_cols(max: usize) -> Vec<Col> {
@@ -43,7 +43,7 @@ pub fn any_cols(max: usize) -> Vec<Col> {
     while i < n {
         let min = any_i32();
         let mx = any_i32();
-        assume(prev < min && min <= mx && mx <= LAST_COLUMN);
+        assume((prev < min) & (min <= mx) & (mx <= LAST_COLUMN));
         prev = mx;
         cols.push(Col { min, max: mx, width: any_width(), custom_width: any_bool(), hidden: any_bool(), style: any_opt_i32() });
         i += 1;
@@ -58,13 +58,24 @@ pub fn any_rows(max: usize) -> Vec<Row> {
     let mut i = 0;
     while i < n {
         let r = any_i32();
-        assume(1 <= r && r <= LAST_ROW);
+        assume((1 <= r) & (r <= LAST_ROW));
         let mut j = 0;
         while j < rows.len() { assume(rows[j].r != r); j += 1; }
         rows.push(Row { r, height: any_width(), custom_format: any_bool(), custom_height: any_bool(), s: any_i32(), hidden: any_bool() });
         i += 1;
     }
     rows
+}
+
+/// as `any_cols`, but descriptor i has the concrete width FIXED_W[i] (Excel units).  For code that does
+/// float arithmetic on widths (pixels = units * 9, units = pixels / 9): these values round-trip exactly,
+/// and they are pairwise distinct so that a width taken from the wrong descriptor is noticed.
+pub const FIXED_W: [f64; 4] = [8.0, 13.0, 21.0, 34.0];
+pub fn any_cols_fixed_w(max: usize) -> Vec<Col> {
+    let mut cols = any_cols(max);
+    let mut i = 0;
+    while i < cols.len() { cols[i].width = FIXED_W[i]; i += 1; }
+    cols
 }
 
 pub fn sheet_with(cols: Vec<Col>, rows: Vec<Row>) -> Worksheet {
@@ -115,5 +126,180 @@ pub fn sigma_move(x: i32, m: i32, d: i32) -> i32 {
     if x == m { m + d }
     else if d > 0 && m < x && x <= m + d { x - 1 }
     else if d < 0 && m + d <= x && x < m { x + 1 }
+    else { x }
+}
+
+// ---------------------------------------------------------------------------------------------
+// Model / UserModel pre-states (workbooks WITHOUT formulas, defined names, tables or CF rules)
+
+use crate::model::Model;
+use crate::user_model::UserModel;
+
+pub fn workbook_with(worksheets: Vec<Worksheet>, selected_sheet: u32) -> Workbook {
+    let mut views = HashMap::new();
+    views.insert(0u32, WorkbookView { sheet: selected_sheet, window_width: 800, window_height: 600 });
+    Workbook {
+        shared_strings: vec![],
+        defined_names: vec![],
+        worksheets,
+        styles: Styles { num_fmts: vec![], fonts: vec![], fills: vec![], borders: vec![], cell_style_xfs: vec![],
+                         cell_xfs: vec![], cell_styles: vec![], dxfs: vec![] },
+        name: "wb".to_string(),
+        settings: WorkbookSettings { tz: "UTC".to_string(), locale: "en".to_string() },
+        metadata: Metadata { application: String::new(), app_version: String::new(), creator: String::new(),
+                             last_modified_by: String::new(), created: String::new(), last_modified: String::new() },
+        tables: HashMap::new(),
+        views,
+        theme: Theme::default(),
+    }
+}
+
+/// `Model::from_workbook(wb, "en")`.  Under mirsym this is the construction intercept of DESIGN 3.3:
+/// the same workbook, empty caches, opaque parser/locale/language.
+#[cfg(verif_replay)]
+pub fn model_from_workbook(wb: Workbook) -> Model<'static> { Model::from_workbook(wb, "en").expect("from_workbook") }
+#[cfg(not(verif_replay))]
+pub fn model_from_workbook(wb: Workbook) -> Model<'static> { vrt_model_from_workbook(wb) }
+#[cfg(not(verif_replay))]
+#[inline(never)]
+pub fn vrt_model_from_workbook(wb: Workbook) -> Model<'static> { Model::from_workbook(std::hint::black_box(wb), "en").unwrap() }
+
+pub fn user_model_paused(wb: Workbook) -> UserModel<'static> {
+    let mut um = UserModel::from_model(model_from_workbook(wb));
+    um.pause_evaluation();
+    um
+}
+
+/// up to `max` hyperlinks at pairwise distinct in-grid cells; link i is recognisable by its location text
+pub fn any_links(max: usize) -> HashMap<(i32, i32), Link> {
+    let n = any_usize_to(max);
+    let mut m: HashMap<(i32, i32), Link> = HashMap::new();
+    let mut keys: Vec<(i32, i32)> = Vec::new();
+    let mut i = 0;
+    while i < n {
+        let r = any_row_index();
+        let c = any_col_index();
+        let mut j = 0;
+        while j < keys.len() { assume(keys[j] != (r, c)); j += 1; }
+        keys.push((r, c));
+        let loc = if i == 0 { "L0" } else if i == 1 { "L1" } else { "L2" };
+        m.insert((r, c), Link::Internal { location: loc.to_string(), tooltip: None });
+        i += 1;
+    }
+    m
+}
+
+/// stored record of column `c` as (width bits compare-able, custom_width, hidden, style), None when no descriptor covers it
+pub fn col_record(ws: &Worksheet, c: i32) -> Option<(f64, bool, bool, Option<i32>)> {
+    let mut i = 0;
+    while i < ws.cols.len() {
+        let d = &ws.cols[i];
+        if d.min <= c && c <= d.max { return Some((d.width, d.custom_width, d.hidden, d.style)); }
+        i += 1;
+    }
+    None
+}
+
+pub fn row_record(ws: &Worksheet, r: i32) -> Option<(f64, bool, bool, i32, bool)> {
+    let mut i = 0;
+    while i < ws.rows.len() {
+        let d = &ws.rows[i];
+        if d.r == r { return Some((d.height, d.custom_format, d.custom_height, d.s, d.hidden)); }
+        i += 1;
+    }
+    None
+}
+
+/// sorted + pairwise disjoint (what C27 states; the grid bound is not part of it)
+pub fn cols_sorted_disjoint(cols: &[Col]) -> bool {
+    let mut i = 0;
+    while i < cols.len() {
+        if cols[i].min > cols[i].max { return false; }
+        if i > 0 && cols[i - 1].max >= cols[i].min { return false; }
+        i += 1;
+    }
+    true
+}
+
+pub fn rows_unique(rows: &[Row]) -> bool {
+    let mut i = 0;
+    while i < rows.len() {
+        let mut j = i + 1;
+        while j < rows.len() { if rows[j].r == rows[i].r { return false; } j += 1; }
+        i += 1;
+    }
+    true
+}
+
+// ---------------------------------------------------------------------------------------------
+// fork-free oracles: written with `&`/`|` on bools (no short-circuit, hence no branch on symbolic data),
+// so one solver query decides the whole frame condition at a symbolic probe.
+
+pub fn covers(d: &Col, c: i32) -> bool { (d.min <= c) & (c <= d.max) }
+pub fn same_col_attrs(a: &Col, b: &Col) -> bool {
+    (a.width == b.width) & (a.custom_width == b.custom_width) & (a.hidden == b.hidden) & (a.style == b.style)
+}
+/// what is stored for column `y` in `after` is exactly what was stored for column `x` in `before`
+pub fn col_attrs_carried(before: &[Col], x: i32, after: &[Col], y: i32) -> bool {
+    let (mut cov_b, mut cov_a, mut ok) = (false, false, true);
+    let mut i = 0;
+    while i < before.len() { cov_b |= covers(&before[i], x); i += 1; }
+    let mut j = 0;
+    while j < after.len() { cov_a |= covers(&after[j], y); j += 1; }
+    i = 0;
+    while i < before.len() {
+        j = 0;
+        while j < after.len() {
+            ok &= !(covers(&before[i], x) & covers(&after[j], y)) | same_col_attrs(&before[i], &after[j]);
+            j += 1;
+        }
+        i += 1;
+    }
+    ok & (cov_b == cov_a)
+}
+pub fn same_row_attrs(a: &Row, b: &Row) -> bool {
+    (a.height == b.height) & (a.custom_format == b.custom_format) & (a.custom_height == b.custom_height)
+        & (a.s == b.s) & (a.hidden == b.hidden)
+}
+/// the record of row `y` in `after` is the record row `x` had in `before` (both absent counts as equal)
+pub fn row_attrs_carried(before: &[Row], x: i32, after: &[Row], y: i32) -> bool {
+    let (mut cov_b, mut cov_a, mut ok) = (false, false, true);
+    let mut i = 0;
+    while i < before.len() { cov_b |= before[i].r == x; i += 1; }
+    let mut j = 0;
+    while j < after.len() { cov_a |= after[j].r == y; j += 1; }
+    i = 0;
+    while i < before.len() {
+        j = 0;
+        while j < after.len() {
+            ok &= !((before[i].r == x) & (after[j].r == y)) | same_row_attrs(&before[i], &after[j]);
+            j += 1;
+        }
+        i += 1;
+    }
+    ok & (cov_b == cov_a)
+}
+/// no row record of `after` sits on row y
+pub fn no_row_record(after: &[Row], y: i32) -> bool {
+    let mut ok = true;
+    let mut j = 0;
+    while j < after.len() { ok &= after[j].r != y; j += 1; }
+    ok
+}
+
+/// the (at most one) link of the pre-state, as (row, column) of its key
+pub fn link_key(links: &HashMap<(i32, i32), Link>, tag: &str) -> Option<(i32, i32)> {
+    for (k, v) in links.iter() {
+        if let Link::Internal { location, .. } = v { if location == tag { return Some(*k); } }
+    }
+    None
+}
+
+/// move the block of `n` lines starting at `m` by `d`: the block lands on m+d.., the lines in between
+/// shift by the block size the other way, everything else stays (C15)
+pub fn sigma_block(x: i32, m: i32, n: i32, d: i32) -> i32 {
+    if m <= x && x < m + n { x + d }
+    else if d > 0 && m + n <= x && x < m + n + d { x - n }
+    else if d < 0 && m + d <= x && x < m { x + n }
     else { x }
 }
